@@ -157,8 +157,10 @@ def render_check(tname, L, mode):
         values = []
         for s in slots:
             if s == "xs":
-                n = c.choice("n_items", [0, 1, 2])
-                items = [SStr.fresh(c, f"item{j}", c.choice(f"len_item{j}", list(range(1, L + 1))), ALPHA) for j in range(n)]
+                n = c.choice("n_items", [0, 1, 2, "aba"])
+                items = [SStr.fresh(c, f"item{j}", c.choice(f"len_item{j}", list(range(1, L + 1))), ALPHA) for j in range(2 if n == "aba" else n)]
+                if n == "aba":
+                    items = [items[0], items[1], items[0]]      # the very same object first and last (position, not identity, decides first/last)
                 ctx["xs"] = items
                 values += items
             else:
